@@ -460,7 +460,10 @@ class BaseModelCrossSet(BaseModel):
         # Inverse transform Y
         Y = self.whitener2.inverse_transform_scores_unseen(Y)
         Y = self.pca2.inverse_transform_scores_unseen(Y)
-        Y = self.preprocessor2.inverse_transform_scores_unseen(Y)
+        # NOTE: the samples of the prediction are those of X, so the sample coordinates
+        # captured while transforming X (preprocessor1) apply, not whatever data
+        # preprocessor2 happened to transform last
+        Y = self.preprocessor1.inverse_transform_scores_unseen(Y)
 
         return Y
 
